@@ -7,6 +7,7 @@ mod conform;
 mod layout;
 mod refops;
 mod rt;
+mod optout;
 mod seqchain;
 mod subject;
 
